@@ -39,6 +39,7 @@ func init() {
 			col.AddExtra("visits", len(cs.Visits))
 			col.AddExtra("loads", len(cs.Loads))
 		})
+		col.AddExtra("visits_of_entries_only_the_reifier_adds", int(replay.ReifierMarkedVisits))
 		col.Print(os.Stdout)
 		return 0
 	})
